@@ -630,7 +630,7 @@ def util_rescale_call_model(ctx, env):
         raise S.Unsupported('rescale model: explicit shape / non 2-D')
     n, m = img.shape
     N, M = S.ceil_(S.mul(n, scale)), S.ceil_(S.mul(m, scale))
-    ctx.assumptions.add('abstract:lentil.util.rescale (scipy.ndimage.map_coordinates): shape ceil(n*scale), identity at scale 1')
+    ctx.assumptions.add('callee contract:lentil.util.rescale (shape ceil(n*scale), identity at scale 1 when not unitary) - discharged against the body for real images in lentil.util.rescale#cubic-nearest / #order0-constant')
     out = A.fresh_array(ctx, 'rescaled', (N, M), 'float' if img.dtype != 'complex' else 'complex')
     ctx.__dict__.setdefault('ghost_rescale_calls', []).append({'img': img.snapshot(), 'scale': scale, 'out': out,
                                                                 'order': env.get('order'), 'unitary': env.get('unitary')})
